@@ -357,3 +357,30 @@ func DropSinf(data []byte, k int) ([]byte, error) {
 	entry.Children = kept
 	return Serialize(units, true), nil
 }
+
+// SwapMoovChildren returns a copy of a file in which the k-th and (k+1)-th child of the moov box (0-based, counted
+// behind the first child, which stays in front) have changed places: ISO/IEC 14496-12 does not prescribe the order of
+// the children of moov, so e.g. [mvhd trak iods trak] is as legal as [mvhd iods trak trak]. No size changes, hence all
+// chunk offsets stay valid. ok=false if the moov has fewer than three children.
+func SwapMoovChildren(data []byte, k int) (out []byte, what string, ok bool) {
+	top, err := ref.Walk(data, 0, int64(len(data)), true)
+	if err != nil {
+		return nil, "", false
+	}
+	for _, b := range top {
+		if b.Type != "moov" || len(b.Children) < 3 {
+			continue
+		}
+		i := 1 + k%(len(b.Children)-2)
+		x, y := b.Children[i], b.Children[i+1]
+		if x.End() != y.Start {
+			return nil, "", false
+		}
+		out = append([]byte(nil), data[:x.Start]...)
+		out = append(out, data[y.Start:y.End()]...)
+		out = append(out, data[x.Start:x.End()]...)
+		out = append(out, data[y.End():]...)
+		return out, fmt.Sprintf("moov children %d,%d swapped (%s<->%s)", i, i+1, x.Type, y.Type), true
+	}
+	return nil, "", false
+}
